@@ -18,6 +18,9 @@ template Graph::Graph(RenderType, const Graph&, const Graph&);
 // the composite adjactor's image iterator (constructors, increment, dereference)
 template class FEAT::Adjacency::CompositeAdjactor<Graph, Graph>;
 
+// in-situ composition of a dynamic graph with an adjactor
+template void DynamicGraph::compose<Graph>(const Graph&);
+
 // in-situ and out-of-place permutation application
 template void Permutation::apply<double>(double*, bool) const;
 template void Permutation::apply<Index>(Index*, bool) const;
